@@ -452,3 +452,17 @@ Definition load_di (text : str) : result discinfo :=
   let d := {| di_timestamp := ts; di_description := PStr desc; di_arch := PStr arch; di_disc_numbers := PList nums |} in
   check validate_with customs_di (F"discinfo.DiscInfo") (di_obj d);
   Ok d.
+
+(* ---- the hypotheses of the .discinfo round-trip theorem as an executable test (run by the harness on every generated object) *)
+Definition line_okb (s : str) : bool := negb (match s with [] => true | _ => false end) && negb (memc c_nl s) && str_eqb (strip_ws s) s.
+
+Definition is_pint (v : pyval) : bool := match v with PInt _ => true | _ => false end.
+
+Definition di_applicableb (d : discinfo) : bool :=
+  match di_timestamp d, di_description d, di_arch d, di_disc_numbers d with
+  | PFloat t, PStr desc, PStr arch, PList nums =>
+      canonical_float t && line_okb desc && str_eqb (strip_quotes desc) desc && line_okb arch &&
+      ((match nums with [PStr s] => str_eqb s (F"ALL") | _ => false end) || (negb (match nums with [] => true | _ => false end) && forallb is_pint nums))
+  | _, _, _, _ => false
+  end.
+
